@@ -160,3 +160,14 @@ def oracle(c):
 
 def Case_slice(c, upto):
     return Case(c.suite, c.lines if upto is None else c.lines[:upto], None, c.meta)
+
+
+# The statistics GETTER is part of the model (`Model/SimViews.lean`): what it reports is compared after every snapshot.
+_cases_plain = cases
+
+
+def cases(rng, tier):
+    for c in _cases_plain(rng, tier):
+        if c.lines and c.lines[0].startswith("sim.new"):
+            c.lines = [x for l in c.lines for x in ((l, "sim.istats") if l == "sim.snap" else (l,))]
+        yield c
